@@ -414,9 +414,10 @@ def defaults(chk: Check) -> None:
     skip = [n for n in cfg.nodes if n.kind == 'test' and 'populate_defaults' in norm(n.ast.test)]
     ok = False
     if skip:
-        t = skip[0].ast.test
-        conj = sorted(norm(v) for v in t.values) if isinstance(t, ast.BoolOp) and isinstance(t.op, ast.And) else []
-        ok = conj == sorted([f'name not in {vp}', 'isinstance(port, PortNamespace)', 'not port.populate_defaults'])
+        # what the test knows when it holds (a local standing for one of the conjuncts is read through)
+        t = ff.subst_flags(skip[0].ast.test, ff.at(skip[0]))
+        want = ast.parse(f'name not in {vp} and isinstance(port, PortNamespace) and not port.populate_defaults', mode='eval').body
+        ok = ff.cond_atoms(t, True) == ff.cond_atoms(want, True) and isinstance(t, ast.BoolOp) and isinstance(t.op, ast.And)
     chk.ob('PROV-defaults', pp, ok, 'a namespace marked populate_defaults=False is left out only when the caller supplied nothing for it', kind='populate-defaults')
     loops = [l for l in ast.walk(pp.node) if isinstance(l, ast.For)]
     chk.ob('PROV-defaults', pp, len(loops) == 1 and norm(loops[0].iter) in ('self.items()', 'self._ports.items()', 'self.ports.items()'), 'every declared port is considered', kind='all-ports')
